@@ -1,7 +1,8 @@
 // C18 correspondence harness — independent objects used from different threads.
 //
 // Line protocol (one result line per op line):
-//   case <id>                              -> "case"                       (forgets registered workloads)
+//   case <id> [eth:<n>|ip:<n>]...          -> "case"                       (forgets registered workloads; the listed user
+//        allocators are registered, in that order, as described under `reg`)
 //   w <tid> crc <iters> <hex>
 //   w <tid> <kind> <iters> <seed> [alone=] kind in parse|build|copy|addr|reasm|follow|wep|wpa2
 //        registers a workload.  Default mode: -> "w <tid> reg" (nothing is executed yet).
@@ -1338,7 +1339,19 @@ int main(int argc, char** argv) {
     return vh::line_loop([&](const std::string& line) -> std::string {
         std::vector<std::string> w = vh::words(line);
         if (w.empty()) return "bad-op";
-        if (w[0] == "case") { works.clear(); regs.clear(); return "case"; }
+        if (w[0] == "case") {
+            // `case <id> [eth:<id>|ip:<id>]...`: the registrations of the case travel on its first line (the case minimiser
+            // never drops that line, so the run-alone digests of the remaining workloads stay valid while it shrinks)
+            works.clear(); regs.clear();
+            for (size_t i = 2; i < w.size(); ++i) {
+                size_t c = w[i].find(':');
+                if (c == std::string::npos) return "bad-op";
+                Reg g; g.fam = w[i].substr(0, c); g.id = unsigned(strtoul(w[i].c_str() + c + 1, 0, 0));
+                if ((g.fam != "eth" && g.fam != "ip") || regs.size() >= 8) return "bad-op";
+                regs.push_back(g);
+            }
+            return "case";
+        }
         if (w[0] == "reg" && w.size() >= 3) {       // recorded only: applied on the main thread of the forked child, before the threads exist
             Reg g; g.fam = w[1]; g.id = unsigned(strtoul(w[2].c_str(), 0, 0));
             if ((g.fam != "eth" && g.fam != "ip") || regs.size() >= 8 || !works.empty()) return "bad-op";
@@ -1400,7 +1413,7 @@ int main(int argc, char** argv) {
                     th.push_back(std::thread([&, i, rep]() {
                         Yielder y(yseed * 1000003ULL + i * 7919ULL + rep, true);
                         ready.fetch_add(1);
-                        while (!start.load()) sched_yield();
+                        for (unsigned spin = 0; !start.load(); ++spin) if (spin > 200000) sched_yield();     // spin: all threads leave within the same microsecond
                         out[i] = guarded(works[i], y);
                     }));
                 }
